@@ -23,7 +23,8 @@ type halfPipe struct {
 	buffered  int
 	deadline  time.Time
 	timer     *time.Timer
-	wdeadline time.Time // write deadline of the side that writes into this half
+	readPause time.Duration // > 0: every Read of this half first waits that long (a slow consumer)
+	wdeadline time.Time     // write deadline of the side that writes into this half
 	wtimer    *time.Timer
 }
 
@@ -60,6 +61,11 @@ func (timeoutErr) Unwrap() error   { return os.ErrDeadlineExceeded }
 func (c *bufConn) Read(b []byte) (int, error) {
 	h := c.rd
 	h.mu.Lock()
+	if d := h.readPause; d > 0 {
+		h.mu.Unlock()
+		time.Sleep(d)
+		h.mu.Lock()
+	}
 	defer h.mu.Unlock()
 	for {
 		if h.rdClosed {
@@ -202,3 +208,10 @@ func (bufAddr) String() string  { return "buf" }
 
 func (c *bufConn) LocalAddr() net.Addr  { return bufAddr{} }
 func (c *bufConn) RemoteAddr() net.Addr { return bufAddr{} }
+
+// SetReadPause makes every later Read of this side wait d first (0 = off)
+func (c *bufConn) SetReadPause(d time.Duration) {
+	c.rd.mu.Lock()
+	c.rd.readPause = d
+	c.rd.mu.Unlock()
+}
